@@ -136,6 +136,13 @@ func (h *Handler) Handle(req, resp dhcpv6.DHCPv6) (dhcpv6.DHCPv6, bool) {
 			// which is equivalent to no hint
 			hints = []*dhcpv6.OptIAPrefix{{Prefix: &net.IPNet{}}}
 		}
+		for _, hint := range hints {
+			if hint.Prefix == nil {
+				// An IAPrefix with prefix-length 0 is parsed to a nil Prefix: it is the
+				// unspecified prefix, ie. the same as no hint
+				hint.Prefix = &net.IPNet{}
+			}
+		}
 
 		// Bitmap to track which requests are already satisfied or not
 		satisfied := bitset.New(uint(len(hints)))
